@@ -444,8 +444,8 @@ int FSolver::StaticAxisymmetric(CBigLinProb &L)
                 if (blockproplist[k].LamType == 2) {
                     mu = blockproplist[k].LamFill;
                     K = blockproplist[k].mu_y;
-                    meshele[i].mu1 = K*mu + (1. - mu);
-                    meshele[i].mu2 = K / (mu + K*(1. - mu));
+                    meshele[i].mu2 = K*mu + (1. - mu);
+                    meshele[i].mu1 = K / (mu + K*(1. - mu));
                 }
                 if (blockproplist[k].LamType>2)
                 {
